@@ -73,6 +73,9 @@ class FaultEngine(hist.Engine):
         super().__init__(ctx, case, monitors, profile=dict(PREFIX_PROFILE))
         self.n_prefix = case["n_ops"] - 1
         self.fault = case["fault"]
+        if self.fault["class"] == "nan":
+            self.n_prefix = max(0, case["n_ops"] - 3)
+        self._poison = None
 
     def gen_op(self):
         i = len(self.trace)
@@ -96,6 +99,39 @@ class FaultEngine(hist.Engine):
         kind = f["kind"]
         if kind in ("evo_aspirate", "evo_dispense") and self.device != "evo":
             kind = "aspirate" if kind == "evo_aspirate" else "dispense"
+        if f["class"] == "nan":
+            # A volume that is not a number at position k of an aspirate / dispense: the call has to be refused. Should
+            # it return, the well it named still holds what it held (nothing was written for it), and the two steps
+            # that follow are sized against THAT content - one of them is more than the well can give or take.
+            j = i - self.n_prefix
+            if j <= 0 or self._poison is None:
+                self.profile = dict(PREFIX_PROFILE)
+                op = self.gen_single("aspirate" if kind in ("aspirate", "evo_aspirate", "transfer") else "dispense")
+                ids = flat_f(dec(op["wells"]))
+                vols = [float(x) for x in flat_f(dec(op["vol"]))]
+                if len(vols) == 1:
+                    vols = vols * len(ids)
+                k = rng.randrange(len(ids))
+                vols[k] = math.nan
+                name = op["lw"]
+                idx = hist.real_index(self.descs[name], ids[k])
+                self._poison = (name, ids[k], float(self.cur(name)[idx]))
+                op["wells"] = ids if len(ids) > 1 else ids[0]
+                op["vol"] = enc(vols if len(ids) > 1 else vols[0])
+                op.pop("comps", None)
+                op["_fault"] = ("nan", k)
+                return op
+            name, wid_, held = self._poison
+            d = self.descs[name]
+            if j == 1:
+                v = max(held - d["min_volume"], 0.0) + rng.choice([1.0, 10.0, 0.5])
+                kind2 = "aspirate"
+            else:
+                v = max(d["max_volume"] - held, 0.0) + rng.choice([1.0, 10.0, 0.5])
+                kind2 = "dispense"
+            if not (v <= self.wlmax):
+                v = self.wlmax  # (one step cannot carry more; the other of the two follow-ups decides then)
+            return {"op": kind2, "lw": name, "wells": wid_, "vol": float(v), "label": None, "_fault": ("after_nan", 0), "_shapes": ["scalar", "scalar"]}
         if f["class"] == "limit":
             for _ in range(20):
                 if kind in ("aspirate", "dispense"):
@@ -321,6 +357,8 @@ class AppendJudge(hist.Monitor):
                 ctx.check("oversized_step_is_refused", out.exc is not None, det)
                 if out.exc is not None and not isinstance(out.exc, VolumeViolationException):
                     ctx.check("oversized_step_raises_invalid_operation_error", isinstance(out.exc, InvalidOperationError), det)
+        if f and f[0] == "nan":
+            ctx.count("nan_volume_entry:" + ("refused" if out.exc is not None else "returned"))
         if out.exc is not None:
             ctx.count("refused:" + op["op"] + ":" + type(out.exc).__name__)
             if f:
@@ -363,7 +401,7 @@ def gen_case(rng, tier, index):
     vclass = rng.choice(["int", "quarter", "cent", "dirty"])
     wl = gen.gen_worklist_cfg(rng)
     wl["max_volume"] = rng.choice([950, 950, 200, 100, 1000, 333.3])
-    cls = rng.choice(["limit", "limit", "limit", "oversize", "invalid"])
+    cls = rng.choice(["limit", "limit", "limit", "oversize", "invalid"]) if rng.random() > 0.05 else "nan"
     if cls == "oversize":
         wl["auto_split"] = rng.random() < 0.3
     elif rng.random() < 0.15:
@@ -375,7 +413,7 @@ def gen_case(rng, tier, index):
         fault["invalid"] = rng.choice(["well", "well", "tip", "separator"])
     if cls == "oversize":
         fault["kind"] = rng.choice(["transfer", "transfer", "aspirate", "dispense", "evo_aspirate", "evo_dispense"])
-    return {"worklist": wl, "worktable": wt, "n_ops": 1 + rng.choice([0, 1, 2, 3, 5, 8]), "opseed": rng.getrandbits(48),
+    return {"worklist": wl, "worktable": wt, "n_ops": (1 if cls != "nan" else 3) + rng.choice([0, 1, 2, 3, 5, 8]), "opseed": rng.getrandbits(48),
             "profile": "fault", "vclass": vclass, "fault": fault, "with_file": rng.random() < 0.34}
 
 
